@@ -427,104 +427,107 @@ func init() {
 				}})
 			}
 			// slices and maps of pointers
-			us = append(us, core.Unit{Name: "graphs:list-map-fields", Cost: 60, Run: func(c *core.Ctx) {
-				n := 3
-				// per node: L in lists of length 0..2 over nodes, M with 0..1 entries
-				var lopts [][]int
-				lopts = append(lopts, nil)
-				for a := 0; a < n; a++ {
-					lopts = append(lopts, []int{a})
-					for b := 0; b < n; b++ {
-						lopts = append(lopts, []int{a, b})
-					}
-				}
-				mopts := []int{-1}
-				for a := 0; a < n; a++ {
-					mopts = append(mopts, a)
-				}
-				per := len(lopts) * len(mopts)
-				total := 1
-				for i := 0; i < n; i++ {
-					total *= per
-				}
-				for code := 0; code < total; code++ {
-					for share := 0; share < 8; share++ {
-						nodes := make([]*GLM, n)
-						for i := range nodes {
-							nodes[i] = &GLM{Id: int32(i + 1)}
+			for shard := 0; shard < 8; shard++ {
+				shard := shard
+				us = append(us, core.Unit{Name: fmt.Sprintf("graphs:list-map-fields:%d", shard), Cost: 60, Run: func(c *core.Ctx) {
+					n := 3
+					// per node: L in lists of length 0..2 over nodes, M with 0..1 entries
+					var lopts [][]int
+					lopts = append(lopts, nil)
+					for a := 0; a < n; a++ {
+						lopts = append(lopts, []int{a})
+						for b := 0; b < n; b++ {
+							lopts = append(lopts, []int{a, b})
 						}
-						x := code
-						reach := map[int]bool{0: true}
-						for i := 0; i < n; i++ {
-							sel := x % per
-							x /= per
-							lo, mo := lopts[sel%len(lopts)], mopts[sel/len(lopts)]
-							if lo != nil {
-								nodes[i].L = []*GLM{}
-								for _, t := range lo {
-									nodes[i].L = append(nodes[i].L, nodes[t])
+					}
+					mopts := []int{-1}
+					for a := 0; a < n; a++ {
+						mopts = append(mopts, a)
+					}
+					per := len(lopts) * len(mopts)
+					total := 1
+					for i := 0; i < n; i++ {
+						total *= per
+					}
+					for code := shard; code < total; code += 8 {
+						for share := 0; share < 8; share++ {
+							nodes := make([]*GLM, n)
+							for i := range nodes {
+								nodes[i] = &GLM{Id: int32(i + 1)}
+							}
+							x := code
+							reach := map[int]bool{0: true}
+							for i := 0; i < n; i++ {
+								sel := x % per
+								x /= per
+								lo, mo := lopts[sel%len(lopts)], mopts[sel/len(lopts)]
+								if lo != nil {
+									nodes[i].L = []*GLM{}
+									for _, t := range lo {
+										nodes[i].L = append(nodes[i].L, nodes[t])
+									}
+								}
+								if mo >= 0 {
+									nodes[i].M = map[string]*GLM{"k": nodes[mo]}
 								}
 							}
-							if mo >= 0 {
-								nodes[i].M = map[string]*GLM{"k": nodes[mo]}
+							// reachability from n0 (otherwise the case duplicates a smaller one)
+							changed := true
+							for changed {
+								changed = false
+								for i := 0; i < n; i++ {
+									if !reach[i] {
+										continue
+									}
+									for _, t := range nodes[i].L {
+										if !reach[int(t.Id)-1] {
+											reach[int(t.Id)-1] = true
+											changed = true
+										}
+									}
+									for _, t := range nodes[i].M {
+										if !reach[int(t.Id)-1] {
+											reach[int(t.Id)-1] = true
+											changed = true
+										}
+									}
+								}
 							}
-						}
-						// reachability from n0 (otherwise the case duplicates a smaller one)
-						changed := true
-						for changed {
-							changed = false
-							for i := 0; i < n; i++ {
-								if !reach[i] {
+							if len(reach) != n {
+								continue
+							}
+							if share&1 == 1 {
+								if len(nodes[0].L) == 0 {
 									continue
 								}
-								for _, t := range nodes[i].L {
-									if !reach[int(t.Id)-1] {
-										reach[int(t.Id)-1] = true
-										changed = true
-									}
+								nodes[0].L2 = nodes[0].L
+							}
+							if share&2 == 2 {
+								if nodes[0].M == nil {
+									continue
 								}
-								for _, t := range nodes[i].M {
-									if !reach[int(t.Id)-1] {
-										reach[int(t.Id)-1] = true
-										changed = true
-									}
+								nodes[0].M2 = nodes[0].M
+							}
+							if share&4 == 4 {
+								// the root's slice is also the slice of one of its own elements
+								if n < 2 || len(nodes[0].L) == 0 || nodes[0].L[len(nodes[0].L)-1] == nodes[0] {
+									continue
 								}
+								nodes[0].L[len(nodes[0].L)-1].L = nodes[0].L
 							}
-						}
-						if len(reach) != n {
-							continue
-						}
-						if share&1 == 1 {
-							if len(nodes[0].L) == 0 {
+							if !c.Begin() {
 								continue
 							}
-							nodes[0].L2 = nodes[0].L
+							c.NontrivialN(1)
+							c.Res.States++
+							c.Res.Transitions += int64(n)
+							desc := fmt.Sprintf("GLM %d nodes, code %d, same slice in two fields=%v, same map in two fields=%v, root's slice also held by its last element=%v", n, code, share&1 == 1, share&2 == 2, share&4 == 4)
+							c.Outcome(graphCheck(c, nodes[0], desc, "list-map-fields"))
 						}
-						if share&2 == 2 {
-							if nodes[0].M == nil {
-								continue
-							}
-							nodes[0].M2 = nodes[0].M
-						}
-						if share&4 == 4 {
-							// the root's slice is also the slice of one of its own elements
-							if n < 2 || len(nodes[0].L) == 0 || nodes[0].L[len(nodes[0].L)-1] == nodes[0] {
-								continue
-							}
-							nodes[0].L[len(nodes[0].L)-1].L = nodes[0].L
-						}
-						if !c.Begin() {
-							continue
-						}
-						c.NontrivialN(1)
-						c.Res.States++
-						c.Res.Transitions += int64(n)
-						desc := fmt.Sprintf("GLM %d nodes, code %d, same slice in two fields=%v, same map in two fields=%v, root's slice also held by its last element=%v", n, code, share&1 == 1, share&2 == 2, share&4 == 4)
-						c.Outcome(graphCheck(c, nodes[0], desc, "list-map-fields"))
 					}
-				}
-				c.Cover("list-map-fields")
-			}})
+					c.Cover("list-map-fields")
+				}})
+			}
 			us = append(us, core.Unit{Name: "families", Cost: 80, Run: func(c *core.Ctx) {
 				maxN := tierPick(tier, 120, 200)
 				for n := 1; n <= maxN; n++ {
